@@ -231,6 +231,10 @@ class BasicRuntime(Runtime):
         self._max_concurrent_runs: weakref.WeakValueDictionary[
             int, asyncio.Semaphore
         ] = weakref.WeakValueDictionary()
+        # The event loop only keeps weak references to tasks. A run that is parked
+        # waiting for an external event (no timer pending) and whose handler the
+        # caller dropped is otherwise an unreachable cycle: hold its task until done.
+        self._run_tasks: set[asyncio.Task[StopEvent]] = set()
 
     def register(self, workflow: Workflow) -> RegisteredWorkflow:
         return RegisteredWorkflow(
@@ -316,6 +320,8 @@ class BasicRuntime(Runtime):
         with setting_run_id(run_id):
             # actually pump the task through the runtime
             task = asyncio.create_task(run_with_concurrency_limit())
+            self._run_tasks.add(task)
+            task.add_done_callback(self._run_tasks.discard)
             queues.complete = task
             return self.get_external_adapter(run_id)
 
